@@ -513,6 +513,15 @@ pub fn load_program_from_bytes(bytes: &[u8]) -> MResult<ParsedProgram> {
   load_program_from_reader(&mut cur, total_len)
 }
 
+// Every offset, length and count stored in a bytecode file must fit inside the
+// file; check them before they size an allocation, a loop or a seek.
+fn check_section(off: u64, len: u64, total_len: u64) -> MResult<()> {
+  match off.checked_add(len) {
+    Some(end) if end <= total_len => Ok(()),
+    _ => Err(MechError::new(SectionOutOfBoundsError { offset: off, length: len, total_len }, None).with_compiler_loc()),
+  }
+}
+
 fn load_program_from_reader<R: Read + Seek>(r: &mut R, total_len: u64) -> MResult<ParsedProgram> {
   r.seek(SeekFrom::Start(0))?;
   let mut header_buf = vec![0u8; ByteCodeHeader::HEADER_SIZE];
@@ -532,9 +541,10 @@ fn load_program_from_reader<R: Read + Seek>(r: &mut R, total_len: u64) -> MResul
 
   // 2. read features
   let mut features = Vec::new();
-  if header.feature_off != 0 && header.feature_off + 4 <= total_len.saturating_sub(4) {
+  if header.feature_off != 0 && header.feature_off.saturating_add(4) <= total_len.saturating_sub(4) {
     r.seek(SeekFrom::Start(header.feature_off))?;
     let c = r.read_u32::<LittleEndian>()? as usize;
+    check_section(header.feature_off + 4, (c as u64).saturating_mul(8), total_len)?;
     for _ in 0..c {
       let v = r.read_u64::<LittleEndian>()?;
       features.push(v);
@@ -543,14 +553,16 @@ fn load_program_from_reader<R: Read + Seek>(r: &mut R, total_len: u64) -> MResul
 
   // 3. read types
   let mut types = TypeSection::new();
-  if header.types_off != 0 && header.types_off + 4 <= total_len.saturating_sub(4) {
+  if header.types_off != 0 && header.types_off.saturating_add(4) <= total_len.saturating_sub(4) {
     r.seek(SeekFrom::Start(header.types_off))?;
     let types_count = r.read_u32::<LittleEndian>()? as usize;
+    check_section(header.types_off + 4, (types_count as u64).saturating_mul(12), total_len)?;
     for _ in 0..types_count {
       let tag = r.read_u16::<LittleEndian>()?;
       let _reserved = r.read_u16::<LittleEndian>()?; // reserved, always 0
       let _version = r.read_u32::<LittleEndian>()?; // version, always 1
       let bytes_len = r.read_u32::<LittleEndian>()? as usize;
+      check_section(r.stream_position()?, bytes_len as u64, total_len)?;
       let mut bytes = vec![0u8; bytes_len];
       r.read_exact(&mut bytes)?;
       if let Some(tag) = TypeTag::from_u16(tag) {
@@ -567,6 +579,8 @@ fn load_program_from_reader<R: Read + Seek>(r: &mut R, total_len: u64) -> MResul
   // 4. read const table
   let mut const_entries = Vec::new();
   if header.const_tbl_off != 0 && header.const_tbl_len > 0 {
+    check_section(header.const_tbl_off, header.const_tbl_len, total_len)?;
+    check_section(0, (header.const_count as u64).saturating_mul(24), header.const_tbl_len)?;
     r.seek(SeekFrom::Start(header.const_tbl_off))?;
     let mut tbl_bytes = vec![0u8; header.const_tbl_len as usize];
     r.read_exact(&mut tbl_bytes)?;
@@ -577,6 +591,7 @@ fn load_program_from_reader<R: Read + Seek>(r: &mut R, total_len: u64) -> MResul
   // read const blob
   let mut const_blob = vec![];
   if header.const_blob_off != 0 && header.const_blob_len > 0 {
+    check_section(header.const_blob_off, header.const_blob_len, total_len)?;
     r.seek(SeekFrom::Start(header.const_blob_off))?;
     const_blob.resize(header.const_blob_len as usize, 0);
     r.read_exact(&mut const_blob)?;
@@ -586,6 +601,7 @@ fn load_program_from_reader<R: Read + Seek>(r: &mut R, total_len: u64) -> MResul
   let mut symbols = HashMap::new();
   let mut mutable_symbols = HashSet::new();
   if header.symbols_off != 0 && header.symbols_len > 0 {
+    check_section(header.symbols_off, header.symbols_len, total_len)?;
     r.seek(SeekFrom::Start(header.symbols_off))?;
     let mut symbols_bytes = vec![0u8; header.symbols_len as usize];
     r.read_exact(&mut symbols_bytes)?;
@@ -604,6 +620,7 @@ fn load_program_from_reader<R: Read + Seek>(r: &mut R, total_len: u64) -> MResul
   // 6. read instr bytes
   let mut instr_bytes = vec![];
   if header.instr_off != 0 && header.instr_len > 0 {
+    check_section(header.instr_off, header.instr_len, total_len)?;
     r.seek(SeekFrom::Start(header.instr_off))?;
     instr_bytes.resize(header.instr_len as usize, 0);
     r.read_exact(&mut instr_bytes)?;
@@ -612,6 +629,7 @@ fn load_program_from_reader<R: Read + Seek>(r: &mut R, total_len: u64) -> MResul
   // 7. read dictionary
   let mut dictionary = HashMap::new();
   if header.dict_off != 0 && header.dict_len > 0 {
+    check_section(header.dict_off, header.dict_len, total_len)?;
     r.seek(SeekFrom::Start(header.dict_off))?;
     let mut dict_bytes = vec![0u8; header.dict_len as usize];
     r.read_exact(&mut dict_bytes)?;
@@ -619,6 +637,7 @@ fn load_program_from_reader<R: Read + Seek>(r: &mut R, total_len: u64) -> MResul
     while cur.position() < dict_bytes.len() as u64 {
       let id = cur.read_u64::<LittleEndian>()?;
       let name_len = cur.read_u32::<LittleEndian>()? as usize;
+      check_section(cur.position(), name_len as u64, dict_bytes.len() as u64)?;
       let mut name_bytes = vec![0u8; name_len];
       cur.read_exact(&mut name_bytes)?;
       let name = String::from_utf8(name_bytes).map_err(|_| 
@@ -937,6 +956,13 @@ pub struct ConstantEntryOutOfBoundsError;
 impl MechErrorKind for ConstantEntryOutOfBoundsError {
   fn name(&self) -> &str { "ConstantEntryOutOfBounds" }
   fn message(&self) -> String { "Constant entry out of bounds".to_string() }
+}
+
+#[derive(Debug, Clone)]
+pub struct SectionOutOfBoundsError { pub offset: u64, pub length: u64, pub total_len: u64 }
+impl MechErrorKind for SectionOutOfBoundsError {
+  fn name(&self) -> &str { "SectionOutOfBounds" }
+  fn message(&self) -> String { format!("Section at offset {} with length {} does not fit in {} bytes", self.offset, self.length, self.total_len) }
 }
 
 #[derive(Debug, Clone)]
